@@ -392,12 +392,41 @@ def operation_order(ctx, prog, modfile, tag):
         ctx.fail(o, "(program)", "expected >= 8 WriteBatch / SerializationBuffer bodies in %s, found %d" % (modfile, n))
 
 
+def consume_replays_all(ctx, prog, B, modfile, tag):
+    """What a serialization buffer recorded reaches the store only through WriteBatch::consume_serialization_buffer: every
+    kind of buffered operation must be replayed by a store call of the right kind (an arm that does nothing silently drops
+    that kind of write)."""
+    o = ctx.ob("C11.g", "%s/consume-replays-every-operation-kind" % tag, "K3+K8", "consume_serialization_buffer performs a store call for every Operation variant")
+    b = ctx.touch(prog.body("<%sWriteBatch as WriteBatch>::consume_serialization_buffer" % B))
+    adt = next((k for k in prog.adts if k.endswith("kv_database::%s::Operation" % modfile)), None)
+    if adt is None:
+        ctx.fail(o, "(program)", "anchor missing: %s::Operation" % modfile)
+        return
+    names = [v["name"] for v in prog.adts[adt]["variants"]]
+    edges = [(sb, tb, names[int(v)]) for sb, tb, v, c in df.variant_edges(b, "kv_database::%s::Operation" % modfile) if v != "otherwise"]
+    o.sites = len(edges)
+    seen = {n_ for _, _, n_ in edges}
+    if set(names) - seen:
+        ctx.fail(o, Site(b, 0, 0), "consume_serialization_buffer does not handle the operation kinds %s" % sorted(set(names) - seen))
+    STORE = re.compile(r"::(insert|remove|put_cf|delete_cf)$")
+    heads = [s_.bb for s_ in b.calls_to(r"Iterator::next$")]
+    for sb, tb, nm in edges:
+        mine = b.reachable([tb], removed_nodes=[sb] + heads)       # this arm (arms of an or-pattern share their body) up to the next iteration
+        calls = [s_ for s_ in b.calls() if s_.bb in mine and STORE.search(s_.node["fn"]["path"])]
+        want_put = nm in ("WideColumnPut", "InsertMember")
+        if not calls:
+            ctx.fail(o, Site(b, tb, 0), "consume_serialization_buffer drops buffered %s operations (no store call in that arm)" % nm)
+        elif not any((s_.node["fn"]["path"].endswith(("insert", "put_cf"))) == want_put for s_ in calls):
+            ctx.fail(o, calls[0], "consume_serialization_buffer replays %s with %s" % (nm, short(calls[0].node["fn"]["path"])))
+
+
 def run(ctx):
     prog = ctx.prog
     ctx.run_clause("C11.a", lambda c: backend_rules(c, prog, "Fjall", "Fjall", "fjall", "fjall"))
     ctx.run_clause("C11.b", lambda c: discriminant_table(c, prog))
     ctx.run_clause("C11.d", lambda c: column_kind_agreement(c, prog, "fjall", "fjall"))
     ctx.run_clause("C11.f", lambda c: operation_order(c, prog, "fjall", "fjall"))
+    ctx.run_clause("C11.g", lambda c: consume_replays_all(c, prog, "Fjall", "fjall", "fjall"))
     try:
         rocks = ctx.program("rocks")
     except Exception as e:  # EngineError is reported by the caller
@@ -406,3 +435,4 @@ def run(ctx):
     ctx.run_clause("C11.e", lambda c: upper_bound_tight(c, rocks))
     ctx.run_clause("C11.d", lambda c: column_kind_agreement(c, rocks, "rocksdb", "rocksdb"))
     ctx.run_clause("C11.f", lambda c: operation_order(c, rocks, "rocksdb", "rocksdb"))
+    ctx.run_clause("C11.g", lambda c: consume_replays_all(c, rocks, "RocksDB", "rocksdb", "rocksdb"))
